@@ -53,6 +53,9 @@ DistD(lenState, d0) ==
         IN IF slot < 14 THEN RevTreeD("spec", slot, nd, extra, 1)
            ELSE DirectD(nd - 4, extra \div 16) \o RevTreeD("align", 0, 4, extra % 16, 1))
 EosDistD == TreeD("posslot", 0, 6, 63, 1) \o DirectD(26, Pow2(26) - 1) \o RevTreeD("align", 0, 4, 15, 1)
+\* the end marker is defined by its DISTANCE (2^32 - 1) alone: a marker may carry any length n in 2..273; its
+\* position-slot tree is then chosen by the length like for any match ("eosn"; "eos" is the usual n = 2)
+EosDistDn(n) == TreeD("posslot", (IF n - 2 < 3 THEN n - 2 ELSE 3), 6, 63, 1) \o DirectD(26, Pow2(26) - 1) \o RevTreeD("align", 0, 4, 15, 1)
 
 RECURSIVE MLitD(_,_,_,_,_,_)
 \* matched literal: k bits remain, node m, still matching flag
@@ -71,7 +74,7 @@ LitCtx(cs, lc, lp) == ((Len(cs.out) % Pow2(lp)) * Pow2(lc)) + ((IF cs.out = <<>>
 RECURSIVE Copy(_,_,_)
 Copy(o, dist, n) == IF n = 0 THEN o ELSE Copy(Append(o, o[Len(o) - dist + 1]), dist, n - 1)
 
-\* symbols: [k |-> "lit", b], [k |-> "match", d (dist>=1), n (len>=2)], [k |-> "short"], [k |-> "rep", r (0..3), n], [k |-> "eos"]
+\* symbols: [k |-> "lit", b], [k |-> "match", d (dist>=1), n (len>=2)], [k |-> "short"], [k |-> "rep", r (0..3), n], [k |-> "eos"], [k |-> "eosn", n (2..273)]
 IsM(cs, pb, b) == One("ismatch", cs.st, PosState(cs, pb), b)
 Decisions(cs, s, lc, lp, pb) ==
   LET ps == PosState(cs, pb) IN
@@ -88,6 +91,7 @@ Decisions(cs, s, lc, lp, pb) ==
             [] s.r = 3 -> One("isrepg0", cs.st, 0, 1) \o One("isrepg1", cs.st, 0, 1) \o One("isrepg2", cs.st, 0, 1))
          \o LenD("replen", ps, s.n - 2)
     [] s.k = "eos" -> IsM(cs, pb, 1) \o One("isrep", cs.st, 0, 0) \o LenD("len", ps, 0) \o EosDistD
+    [] s.k = "eosn" -> IsM(cs, pb, 1) \o One("isrep", cs.st, 0, 0) \o LenD("len", ps, s.n - 2) \o EosDistDn(s.n)
 
 \* semantic effect (valid symbols only; validity = distances within produced output)
 Valid(cs, s) ==
@@ -96,6 +100,7 @@ Valid(cs, s) ==
     [] s.k = "short" -> cs.rep[1] + 1 <= Len(cs.out)
     [] s.k = "rep" -> cs.rep[s.r + 1] + 1 <= Len(cs.out)
     [] s.k = "eos" -> TRUE
+    [] s.k = "eosn" -> TRUE
 \* validity under a dictionary of `dict` bytes: a copy may not reach further back than that
 ValidD(cs, s, dict) ==
   /\ Valid(cs, s)
@@ -104,8 +109,9 @@ ValidD(cs, s, dict) ==
        [] s.k = "short" -> cs.rep[1] + 1 <= dict
        [] s.k = "rep" -> cs.rep[s.r + 1] + 1 <= dict
        [] s.k = "eos" -> TRUE
+       [] s.k = "eosn" -> TRUE
 \* output bytes a symbol adds
-Gain(s) == CASE s.k = "lit" -> 1 [] s.k = "match" -> s.n [] s.k = "short" -> 1 [] s.k = "rep" -> s.n [] s.k = "eos" -> 0
+Gain(s) == CASE s.k = "lit" -> 1 [] s.k = "match" -> s.n [] s.k = "short" -> 1 [] s.k = "rep" -> s.n [] s.k = "eos" -> 0 [] s.k = "eosn" -> 0
 Apply(cs, s) ==
   CASE s.k = "lit" -> [cs EXCEPT !.st = LitNext[cs.st + 1], !.out = Append(cs.out, s.b)]
     [] s.k = "match" -> [st |-> MatchNext(cs.st), rep |-> <<s.d - 1, cs.rep[1], cs.rep[2], cs.rep[3]>>, out |-> Copy(cs.out, s.d, s.n)]
@@ -117,6 +123,7 @@ Apply(cs, s) ==
                                   [] s.r = 3 -> <<cs.rep[4], cs.rep[1], cs.rep[2], cs.rep[3]>>
                       IN [st |-> RepNext(cs.st), rep |-> nr, out |-> Copy(cs.out, d0 + 1, s.n)]
     [] s.k = "eos" -> cs
+    [] s.k = "eosn" -> cs
 
 \* ---------- table dimensions lzma-rs allocates (C07: indices bounded by construction) ----------
 \* lzma-rs addresses `spec` (pos_decoders[115]) at  base - slot + node.
